@@ -41,12 +41,28 @@ def r_string_literal_escapes(r, prog):
     r.floor(3)
 
 
+def request_partition_host(prog):
+    """(function that converts and distributes the files, call of it in encode_generate_code_request or None): the request function itself, or
+    a private helper of the binary it calls for that"""
+    g0 = prog.fn('slicec_bin::encode_generate_code_request')
+    is_conv = lambda g, c: c.name() == 'from' and 'SliceFile' in ((c.resolved or '') + (c.callee or '') + ' '.join(c.targs)) and not g.blocks[c.bb].get('cleanup')
+    if any(is_conv(g0, c) for c in g0.calls()):
+        return g0, None
+    for c in g0.calls():
+        h = prog.fns.get(c.resolved or '')
+        if h is not None and h.crate.tag == 'slicec_bin' and h is not g0 and '{closure' not in h.path and not g0.blocks[c.bb].get('cleanup') and any(is_conv(h, x) for x in h.calls()):
+            return h, c
+    raise AnchorMissing('the conversion of the parsed files for the generator request')
+
+
 def r_request_leaves_out_only_moduleless_files(r, prog):
-    g = prog.fn('slicec_bin::encode_generate_code_request')
+    g, via = request_partition_host(prog)
     conv = [c for c in g.calls() if c.name() == 'from' and 'SliceFile' in ((c.resolved or '') + (c.callee or '') + ' '.join(c.targs)) and not g.blocks[c.bb].get('cleanup')]
     if len(conv) != 1:
         raise AnchorMissing('the file conversion in encode_generate_code_request (found %d)' % len(conv))
     gs = [x for x in guards.guard_set(prog, g, conv[0].bb) if not re.search(r' is (Continue|Some)$', x)]
+    if via is not None:
+        gs += [x for x in guards.guard_set(prog, via.fn, via.bb) if not re.search(r' is (Continue|Some)$', x)]
     if len(gs) == 1 and re.match(r'^!\(is_none\(.*\.module\)\)$', gs[0]):
         r.ok('every file that has a module declaration is converted and sent; only files without one are left out')
     else:
